@@ -206,8 +206,12 @@ pub fn run(tier: Tier, seed: u64) -> i32 {
         }
         // ---- (ii) every draw byte matters, every output byte varies ----
         let zero = vec![0u8; w];
+        let mut base_used = 0usize;
         let base = match call_site(site, &zero) {
-            Ok(x) => x.0,
+            Ok(x) => {
+                base_used = x.1;
+                x.0
+            }
             Err(m) => {
                 // all-zero private keys are a legitimate draw; a crash here is C01/C19 business for a/b, but a crash elsewhere is a finding
                 if !site.direct {
@@ -292,8 +296,14 @@ pub fn run(tier: Tier, seed: u64) -> i32 {
             scripts.dedup();
             for sc in &scripts {
                 match call_site(site, sc) {
-                    Ok((out, _, _)) => {
+                    Ok((out, used, _)) => {
                         evals += 1;
+                        if used != p1.1 {
+                            // the site drew again for this answer (e.g. it refuses a degenerate draw and draws anew): its value comes
+                            // from later bytes, which all scripts share, so it says nothing about injectivity
+                            report.count("answers_after_which_the_site_drew_again", 1);
+                            continue;
+                        }
                         if let Some(prev) = seen.get(&out) {
                             if prev != sc {
                                 viol(&report, site.name, "different-draws-same-value", json!({"draw_1": hex(prev), "draw_2": hex(sc), "value": hex(&out)}), format!("two different {w}-byte RNG answers give the same value {}: the value carries less than its draw", hex(&out)));
@@ -317,10 +327,11 @@ pub fn run(tier: Tier, seed: u64) -> i32 {
                     viol(&report, site.name, "panic", json!({"script": "all-0xFF"}), m);
                 }
             }
-            Ok((ff, _, _)) => {
+            Ok((ff, ff_used, _)) => {
                 // degenerate RNG answers are still answers: all-zero, all-ones and a counter pattern must give
-                // three different values (a "keep the old value if the draw looks weak" shortcut shows here)
-                if !base.is_empty() && (ff == base || ff == p1.0 || base == p1.0) {
+                // three different values (a "keep the old value if the draw looks weak" shortcut shows here); a site
+                // that draws AGAIN after a degenerate answer takes its value from later bytes and is not judged here
+                if !base.is_empty() && base_used == p1.1 && ff_used == p1.1 && (ff == base || ff == p1.0 || base == p1.0) {
                     viol(&report, site.name, "degenerate-draw-not-used", json!({"all_zero": hex(&base), "all_ones": hex(&ff), "counter": hex(&p1.0)}), "the values produced for an all-zero, an all-ones and a counter RNG answer are not pairwise different".into());
                 }
             }
@@ -329,8 +340,11 @@ pub fn run(tier: Tier, seed: u64) -> i32 {
         // sites that REPLACE an earlier value (challenge refresh): an all-zero / all-ones answer must still replace it
         if site.name.contains("refresh after") {
             for sc in [vec![0u8; w], vec![0xFFu8; w]] {
-                if let (Ok((v1, _, _)), Ok((v2, _, _))) = (call_site(site, &sc), call_site(site, &counter_script(9, w))) {
+                if let (Ok((v1, u1, _)), Ok((v2, _, _))) = (call_site(site, &sc), call_site(site, &counter_script(9, w))) {
                     evals += 2;
+                    if u1 != p1.1 {
+                        continue;
+                    }
                     // same setup both times, so the value BEFORE the refresh is the same; two different answers must give two different values
                     if v1 == v2 {
                         viol(&report, site.name, "degenerate-draw-not-used", json!({"script": hex(&sc), "value": hex(&v1)}), "the refreshed challenge is the same for a degenerate and for a counter RNG answer".into());
